@@ -104,7 +104,7 @@ def execute(item):
     return r
 
 
-KQ = ("NL", "CE", "J")
+KQ = ("NL", "CE", "J", "PPO")
 KT = KQ + ("W3", "W0", "CO", "BL", "WT", "NLI", "CD", "CEE", "UP", "LO")
 
 
